@@ -55,7 +55,7 @@ def run(chk):
         scopes.append((S.SUB[k], S.words_bound(S.SUB[k], quick)))
     res = S.explore(chk, 'strings', scopes, invariants=INV, timeout=3000, runs='B', sources=deep([6, 14] if quick else [6, 14, 40]))
     S.model_must_hold(chk, res)
-    sim = S.explore(chk, 'simulate', [(S.ST + S.SC + S.SC_EXTRA, 22, 6)], invariants=INV, timeout=3000, runs='B', simulate=60 if quick else 4000, depth=6000)
+    sim = S.explore(chk, 'simulate', [(S.ST + S.SC + S.SC_EXTRA, 22, 6)], invariants=INV, timeout=3000, runs='B', simulate=60 if quick else 300, depth=6000)
     S.model_must_hold(chk, sim)
     bad = S.replay(chk, res.records + sim.records)
     for r in res.records[:6]:
@@ -63,8 +63,8 @@ def run(chk):
     # material TLC did not generate
     docs = S.corpus_sources()
     extra = list(docs)
-    extra += S.mutations(rng, docs, 3 if quick else 40, S.SC + S.SC_EXTRA)
-    extra += S.random_strings(rng, S.ST + S.SC_EXTRA, 300 if quick else 20000, 5, 30)
+    extra += S.mutations(rng, docs, 3 if quick else 12, S.SC + S.SC_EXTRA)
+    extra += S.random_strings(rng, S.ST + S.SC_EXTRA, 300 if quick else 3000, 5, 30)
     extra += deep([12, 40])
     extra += [endnest(6), endnest(10)]
     extra = list(dict.fromkeys(extra))
@@ -75,8 +75,8 @@ def run(chk):
     S.judge(chk, verdicts, CLAUSES, 'parse outcome must be a tree or a diagnostic; no hang, no leak')
     # many more random long strings and mutants: the C06 clause needs no side condition, so these are validated without
     # running the reference machine on them
-    more = S.random_strings(rng, S.ST + S.SC_EXTRA + S.SC, 4000 if quick else 60000, 5, 40)
-    more += S.mutations(rng, docs, 20 if quick else 200, S.SC + S.SC_EXTRA)
+    more = S.random_strings(rng, S.ST + S.SC_EXTRA + S.SC, 4000 if quick else 20000, 5, 40)
+    more += S.mutations(rng, docs, 20 if quick else 60, S.SC + S.SC_EXTRA)
     more += [endnest(12), endnest(40)]       # validated without running the reference machine (it is exponential on these too)
     more = list(dict.fromkeys(more))
     exps2 = obs.experiments(more)
